@@ -817,7 +817,72 @@ func ruleR06_5(c *Check) {
 	}
 }
 
+// R06.6: a value pointer names the place its entry was written to.
+func ruleR06_6(c *Check) {
+	w := c.W
+	r := c.Rule("R06.6", "E4", 4, "valueLog.write builds each value pointer from the file that receives the entry: Fid is the fid of the log file variable on which encodeEntry is called (the variable the rotation replaces, not a file id read before the loop), Offset is the current write offset (valueLog.woffset()) and is the offset handed to encodeEntry, Len is the length encodeEntry returned",
+		"a pointer with the file id taken before a rotation, or an offset/length from another source, makes every later read of that key return another entry's bytes (or fail its bounds check)")
+	f := w.F("badger.valueLog.write")
+	enc := w.Func("badger.logFile.encodeEntry")
+	fidF, offF, lenF := w.Field("badger.valuePointer.Fid"), w.Field("badger.valuePointer.Offset"), w.Field("badger.valuePointer.Len")
+	lfFid := w.Field("badger.logFile.fid")
+	var cur types.Object
+	var encCall *ast.CallExpr
+	f.walkDeep(func(own *Fn, x ast.Node) bool {
+		call, ok := x.(*ast.CallExpr)
+		if ok && w.Callee(call) == types.Object(enc) {
+			encCall = call
+			if rc := recvOf(call); rc != nil {
+				if id, isId := unparen(rc).(*ast.Ident); isId {
+					cur = w.Use(id)
+				}
+			}
+		}
+		return true
+	})
+	if cur == nil || encCall == nil {
+		panic(anchorError{"encodeEntry call on the current log file in valueLog.write"})
+	}
+	var k keyer
+	nf, no, nl := 0, 0, 0
+	for _, o := range f.SitesDeep(selStore(fidF, offF, lenF)) {
+		as, ok := o.Node.(*ast.AssignStmt)
+		if !ok || len(as.Lhs) != 1 || len(as.Rhs) != 1 {
+			continue
+		}
+		rhs := unparen(as.Rhs[0])
+		switch w.fieldOf(as.Lhs[0]) {
+		case fidF:
+			nf++
+			okv := false
+			if se, isSel := rhs.(*ast.SelectorExpr); isSel && w.fieldOf(se) == lfFid {
+				if id, isId := unparen(se.X).(*ast.Ident); isId && w.Use(id) == cur {
+					okv = true
+				}
+			}
+			r.Check(okv, o.SiteFn, k.key("pointer file id is the file written to", w, as), as, "valuePointer.Fid is assigned "+short(w, rhs)+", not the fid of the log file that encodeEntry writes to")
+		case offF:
+			no++
+			r.Check(w.isCallTo(rhs, w.Func("badger.valueLog.woffset")), o.SiteFn, k.key("pointer offset is the current write offset", w, as), as, "valuePointer.Offset is assigned "+short(w, rhs))
+		case lenF:
+			nl++
+			org := w.Origin(o.SiteFn, rhs)
+			if call, isCall := unparen(org).(*ast.CallExpr); isCall && len(call.Args) == 1 {
+				if tv, ok := w.Info.Types[call.Fun]; ok && tv.IsType() {
+					org = w.Origin(o.SiteFn, call.Args[0])
+				}
+			}
+			r.Check(w.isCallTo(org, enc), o.SiteFn, k.key("pointer length is what encodeEntry wrote", w, as), as, "valuePointer.Len is assigned "+short(w, rhs))
+		}
+	}
+	r.Exists(nf >= 1 && no >= 1 && nl >= 1, f, "pointer fields assigned", nil, "expected stores to Fid, Offset and Len of the value pointer in valueLog.write")
+	// the offset given to encodeEntry is the pointer's offset
+	okArg := len(encCall.Args) == 3 && w.fieldOf(encCall.Args[2]) == offF
+	r.Check(okArg, f, "entry encoded at the pointer's offset", encCall, "encodeEntry is given "+short(w, encCall.Args[len(encCall.Args)-1])+" as offset, not the pointer's Offset")
+}
+
 func propC06(c *Check) {
+	ruleR06_6(c)
 	ruleR06_1(c)
 	ruleR06_2(c)
 	ruleR06_3(c)
